@@ -16,8 +16,9 @@ use isograph_schema::{
     IsographDatabase, Loadability, NameAndArguments, NormalizationKey, PathToRefetchField,
     RefetchedPathsMap, VariableContext, categorize_field_loadability,
     client_scalar_selectable_selection_set_for_parent_query, flattened_entity_named,
-    refetch_strategy_for_client_scalar_selectable_named, selectable_named,
-    selectable_reader_selection_set, transform_arguments_with_child_context,
+    initial_variable_context, refetch_strategy_for_client_scalar_selectable_named,
+    selectable_named, selectable_reader_selection_set, transform_arguments_with_child_context,
+    transform_name_and_arguments_with_child_variable_context,
 };
 use pico::MemoRef;
 use prelude::Postfix;
@@ -863,6 +864,10 @@ fn refetched_paths_for_client_scalar_selectable<TCompilationProfile: Compilation
     // Here, path is acting as a prefix. We will receive (for example) foo.bar, and
     // the client field may have a refetch query at baz.__refetch. In this case,
     // this method would return something containing foo.bar.baz.__refetch
+    //
+    // The nested reader indexes its refetch queries by the order of its own refetch paths,
+    // i.e. sorted in terms of its own variables. So we sort the paths in those terms and
+    // only then transform them; sorting the transformed paths can give another order.
     // TODO return a BTreeSet
     let path_set = refetched_paths_with_path(
         db,
@@ -873,13 +878,35 @@ fn refetched_paths_for_client_scalar_selectable<TCompilationProfile: Compilation
             nested_client_scalar_selectable.name,
         )
         .expect("Expected selection set to be valid."),
-        path,
-        client_scalar_selectable_variable_context,
+        &mut vec![],
+        &initial_variable_context(&nested_client_scalar_selectable.scalar_selected()),
     );
 
     let mut paths: Vec<_> = path_set.into_iter().collect();
     paths.sort();
     paths
+        .into_iter()
+        .map(|nested_path| PathToRefetchField {
+            linked_fields: path
+                .iter()
+                .cloned()
+                .chain(nested_path.linked_fields.iter().map(|key| {
+                    key.transform_with_parent_variable_context(
+                        client_scalar_selectable_variable_context,
+                    )
+                }))
+                .collect(),
+            field_name: match nested_path.field_name {
+                SelectionType::Scalar(name) => SelectionType::Scalar(name),
+                SelectionType::Object(name_and_arguments) => SelectionType::Object(
+                    transform_name_and_arguments_with_child_variable_context(
+                        name_and_arguments,
+                        client_scalar_selectable_variable_context,
+                    ),
+                ),
+            },
+        })
+        .collect()
 }
 
 fn refetched_paths_with_path<TCompilationProfile: CompilationProfile>(
